@@ -128,9 +128,9 @@ func natsStr(l []uint32) string {
 func (s *psnap) str(buf bool) string {
 	dl, fv := "-", "-"
 	if s.HasData {
-		dl = fmt.Sprint(s.DataLen)
-		fv = "."
-		if buf {
+		dl, fv = "+", "."
+		if buf { // the segment may have written this buffer: length and digest
+			dl = fmt.Sprint(s.DataLen)
 			fv = fmt.Sprint(vhlib.Fnv64(s.Data))
 		}
 	}
@@ -487,8 +487,8 @@ func (cr *caseRun) doSegment(w *worker, ci *callInfo, opLine string) {
 	}
 	tidx := -1
 	switch {
-	case ci.api == "add" || ci.api == "fin":
-		tidx = ci.idx
+	case ci.api == "add" && pausedAt == "adddata.prelock", ci.api == "fin" && pausedAt == "finalise.hashed":
+		tidx = ci.idx // the critical sections that can change a buffer
 	case ci.api == "exp" && pausedAt == "expire.visit":
 		tidx = int(pausedIdx)
 	}
